@@ -283,6 +283,18 @@ def relational(rec, g, mon, pool, case):
                 if ha != hb or ha[0] != 'ok':
                     rec.violation('hash:equal-objects-differ', 'a == b => hash(a) == hash(b)',
                                   dict(case, objects=[mon.describe(a), mon.describe(b)]), 'equal hashes', (ha, hb))
+    # comparisons with values that are not parsed objects: never equal, never raising
+    for a in pool[:6]:
+        fields = [getattr(a, f) for f in type(a)._fields]
+        for foreign in (None, 0, '', tuple(fields), list(fields), dict(zip(type(a)._fields, fields)), type(a), object()):
+            rec.case()
+            try:
+                if (a == foreign) or (foreign == a) or not (a != foreign):
+                    rec.violation('eq:equal-to-foreign-value', '== with a value that is not a parsed object',
+                                  dict(case, objects=[mon.describe(a), repr(foreign)[:80]]), False, True)
+            except Exception as e:
+                rec.violation('eq:raises-on-foreign-value', '== with a value that is not a parsed object',
+                              dict(case, objects=[mon.describe(a), repr(foreign)[:80]]), 'False', '%s: %s' % (type(e).__name__, str(e)[:80]))
     for i in range(n):
         if not eqm[(i, i)]:
             rec.violation('eq:not-reflexive', 'reflexivity', dict(case, objects=[mon.describe(pool[i])]), True, False)
